@@ -11,6 +11,12 @@ CFGS = {
     # deletion marker is present while the threads re-create it (the window repaired by a7ee48b)
     "ovlrm": (["base mem", "base mem", "fs base 0", "fs base 1", "fs ovl 2 0 - 1 -"], 2,
               ["createdirall 1:j61", "removedir 2:j61"]),
+    # two SIBLINGS were removed through the overlay: their markers share one bookkeeping directory, which the
+    # threads re-creating them both touch
+    "ovlrm2": (["base mem", "base mem", "fs base 0", "fs base 1", "fs ovl 2 0 - 1 -"], 2,
+               ["createdirall 1:j70,j61", "createdirall 1:j70,j62", "removedir 2:j70,j61", "removedir 2:j70,j62"]),
+    "ovlrm3": (["base mem", "base mem", "fs base 0", "fs base 1", "fs ovl 2 0 - 1 -"], 2,
+               ["createdirall 1:j61", "createdirall 1:j62", "removedir 2:j61", "removedir 2:j62"]),
     "phys": (["base phys", "fs base 0"], 0, []),
     "altphys": (["base phys", "fs base 0", "fs alt 0 " + vfx.hexs("/r")], 1, ["createdirall 0:j72"]),
 }
@@ -28,13 +34,18 @@ def gen_progs(rng, tier):
         if cname == "ovlrm":
             sets = [ps for ps in PATHSETS if all(q.startswith("a/") for q in ps)]
             sets = sets if tier != "quick" else sets[:2]
+        if cname == "ovlrm2":
+            sets = [["p/a", "p/b"], ["p/a/x", "p/b/deep/er"], ["p/a", "p/b", "p/a"]]
+            sets = sets if tier != "quick" else sets[:2]
+        if cname == "ovlrm3":
+            sets = [["a", "b"], ["a/x", "b/deep/er"]]
         for i, paths in enumerate(sets):
             threads = [["createdirall " + vfx.ps(target, p)] for p in paths]
             if cname in ("phys", "altphys"):
                 mode = "stress %d" % (300 if tier == "quick" else 5000)
                 if len(paths) < 4:
                     threads = threads + [["createdirall " + vfx.ps(target, paths[0])]]
-            elif cname == "ovlrm":
+            elif cname.startswith("ovlrm"):
                 mode = "pbound 2,%d" % (4000 if tier == "quick" else 60000)
             else:
                 cap = {"mem": 40000, "alt": 6000, "ovl": 1500}[cname] * (1 if tier == "quick" else 10)
@@ -49,7 +60,8 @@ RULE = ("2-4 threads calling create_dir_all on path pairs/triples of depth 1-4 t
         "paths, ancestor/descendant, siblings, disjoint, multi-byte names): on MemoryFS, on AltrootFS over MemoryFS and on "
         "OverlayFS over two MemoryFS (upper empty, lower pre-populated) ALL interleavings at lock granularity are enumerated "
         "(depth-first over the scheduling choices at the verif-hooks yield points; capped for the overlay, whose create_dir "
-        "takes the lock ~15 times; on the overlay after a removal of the common ancestor - deletion marker present - all "
+        "takes the lock ~15 times; on the overlay after a removal of the common ancestor, and after removals of the two "
+        "sibling directories that the threads re-create - deletion markers present, sharing one bookkeeping directory - all "
         "schedules with at most 2 preemptions) and a sample is replayed on the Coq interleaved semantics; on PhysicalFS and AltrootFS over "
         "it free-running OS threads are started behind a barrier for 300 (quick) / 5000 (thorough) rounds; oracle: every "
         "thread returns Ok and afterwards every requested path and each ancestor is a directory")
@@ -73,7 +85,7 @@ def body_of(line):
 
 def run_and_compare(progs, tier):
     explored = conclib.explore(progs, "c17")
-    replayable = [p for p in progs if p.cname in ("mem", "alt", "ovl", "ovlrm")]
+    replayable = [p for p in progs if p.cname in ("mem", "alt", "ovl", "ovlrm", "ovlrm2", "ovlrm3")]
     model, nreplayed = conclib.replay_model(replayable, {p.name: explored[p.name] for p in replayable}, "c17",
                                             limit_per_prog=150)
     dis = []
